@@ -19,9 +19,11 @@ def _ops(rng, rec, log):
             b = float(rng.uniform(0.6, 1.0) * (n - 1) * dt)
             rec.trim(a, b)
             log.append(("trim", a, b))
-        elif op == 1:
+        elif op == 1 and n > 40:          # scipy's zero-phase filter needs more samples than its padding (18 for this design)
             rec.butterworth_filter((float(rng.uniform(0.2, 1.0)), None))
             log.append(("filter",))
+        elif op == 1:
+            continue
         elif op == 2:
             t = str(rng.choice(["linear", "constant"]))
             rec.detrend(type=t)
